@@ -62,7 +62,8 @@ def run(run):
     cases = []
     for _ in range(n):
         cases.append({"kind": "args", "args": gen_args(rng)})
-        cases.append({"kind": "parent", "wrapper": rng.choice(["w1", "w2", " w1 "]), "args": gen_args(rng)[:3]})
+        cases.append({"kind": "parent", "wrapper": rng.choice(["w1", "w2", " w1 "]), "args": gen_args(rng)[:3],
+                      "mutate_first": rng.random() < 0.5})
         cases.append({"kind": "preprocess", "frag": rng.choice(FRAGS) + rng.choice(["", " ", rng.choice(FRAGS)]),
                       "title": rng.choice(["Tt", "Talk:P q", "Foo/bar"])})
         # expandTemplate does not preprocess its arguments: plain-text values only
